@@ -720,5 +720,5 @@ func main() {
 	if abort.Load() {
 		r.Set("stopped_early", "more than 20000 failing cases")
 	}
-	r.Finish("every requirement structure (ordered list of 1..3 alternatives over {anonymous, non-empty subsets of 3 schemes}; the bound of each sweep is in coverage.sweeps_environments) x every evaluation order of every alternative x every per-scheme outcome vector x authorizer kinds x registered/undefined authenticator configurations, at Context.Authorize and through the handler chain (x rest-of-request variants); one evaluation = one Authorize call or one request on the real code compared with the reference; non-trivial = at least one authenticator was consulted; the enumerator never repeats a (environment, structure, order, vector, authorizer, rest, level) tuple", !abort.Load())
+	r.Finish("every requirement structure (ordered list of 1..3 alternatives over {anonymous, non-empty subsets of 3 schemes}; the bound of each sweep is in coverage.sweeps_environments) x every evaluation order of every alternative x every per-scheme outcome vector x authorizer kinds x registered/undefined authenticator configurations, at Context.Authorize, at RouteAuthenticators.Authenticate called directly, and through the handler chain (x rest-of-request variants); x the exported surface, each variant judged by the same reference on a reduced alphabet (coverage.sweeps_environments): 8 wirings of API/context/handler (RegisterAuth and RegisterAuthorizer before or after NewContext, RoutesHandler / APIHandler / APIHandlerSwaggerUI / APIHandlerRapiDoc / middleware.Serve, a typed RoutableAPI with a generated-style handler through NewRoutableContext and NewRoutableContextWithAnalyzedSpec with an explicit DefaultRouter, security.Authorized as authorizer) and 6 authenticator flavours (scripted AuthenticatorFunc; every constructor of package security: APIKeyAuth[Ctx] header and query, BasicAuth[Ctx], BasicAuthRealm[Ctx], BearerAuth[Ctx], HttpAuthenticator, ScopedAuthenticator); one evaluation = one Authorize call or one request on the real code compared with the reference; non-trivial = at least one authenticator logged a call (the plain, context-less callbacks of package security cannot log and are not counted); the enumerator never repeats a (environment, structure, order, vector, authorizer, rest, level) tuple", !abort.Load())
 }
